@@ -1370,12 +1370,17 @@ impl Writer {
     let first_keeper = if !self.like_stateless {
       // Regular stateful writer behavior
       // All readers have acked up to this point (SequenceNumber)
+      // Only Reliable readers send acknowledgments, so only they can hold samples
+      // back. If there are none (no readers at all, or only BestEffort ones),
+      // everything counts as acknowledged. Otherwise the history would never
+      // be cleaned and would grow without bound.
       let acked_by_all_readers = self
         .readers
         .values()
+        .filter(|rp| rp.qos().is_reliable())
         .map(RtpsReaderProxy::acked_up_to_before)
         .min()
-        .unwrap_or_else(SequenceNumber::zero);
+        .unwrap_or_else(|| self.history_buffer.last_change_sequence_number().plus_1());
       // If all readers have acked all up to before 5, and depth is 5, we need
       // to keep samples 0..4, i.e. from acked_up_to_before - depth .
       max(
